@@ -237,6 +237,15 @@ pub fn large_queries() -> Vec<(Q, usize)> {
         (Q::Bool(vec![(m, t("c")), (s, Q::DisMax(vec![t("a"), t("b")], 0.3))], None), 3),
         (Q::Boost(Box::new(Q::DisMax(vec![t("a"), t("b")], 0.3)), 2.0), 2),
         (Q::Bool(vec![(s, Q::Const(Box::new(t("a")), 2.0)), (s, t("b"))], None), 2),
+        // a union below a conjunction: it is seeked forward over whole 64-document buckets inside its
+        // 4096-document window (the other clause is rare, or present in runs separated by gaps), and enters the
+        // next window by advancing (no union document in the last ~96 positions of a window for u / v)
+        (Q::Bool(vec![(m, t("r")), (m, Q::Bool(vec![(s, t("a")), (s, t("b"))], None))], None), 3),
+        (Q::Bool(vec![(m, t("r")), (m, Q::Bool(vec![(s, t("u")), (s, t("v"))], None))], None), 3),
+        (Q::Bool(vec![(m, t("g")), (m, Q::Bool(vec![(s, t("u")), (s, t("v"))], None))], None), 3),
+        (Q::Bool(vec![(m, t("g")), (m, Q::Bool(vec![(s, t("u")), (s, t("v")), (s, t("b"))], None))], None), 4),
+        (Q::Bool(vec![(m, t("r")), (m, Q::DisMax(vec![t("u"), t("v")], 0.3))], None), 3),
+        (Q::Bool(vec![(m, t("g")), (s, Q::Bool(vec![(s, t("u")), (s, t("v"))], None))], None), 3),
     ]
 }
 
@@ -258,6 +267,20 @@ pub fn large_docs(n: usize) -> Vec<ModelDoc> {
             }
             if i % 7 == 0 {
                 toks.push("a");
+            }
+            // a rare term, a term present in runs of 150 documents separated by gaps of 150, and two terms whose
+            // union leaves the last ~96 positions of every 4096-document window empty
+            if i % 97 == 0 {
+                toks.push("r");
+            }
+            if i % 300 < 150 {
+                toks.push("g");
+            }
+            if i % 2 == 1 && i % 4096 < 4000 {
+                toks.push("u");
+            }
+            if i % 3 == 1 && i % 4096 < 4000 {
+                toks.push("v");
             }
             ModelDoc::from_text(i as u64 + 1, &toks.join(" "))
         })
@@ -618,7 +641,7 @@ pub fn run(ctx: &Ctx) -> Report {
     rep.set("corpora", corpora.len() as u64);
     rep.set("queries", nq as u64);
     rep.set("fieldnorm_family_max_len", max_len as u64);
-    rep.set("rule", "every multiset of 1..2 (thorough 3) documents over texts of <= 3 tokens over {a,b} x every contiguous segmentation x every delete subset x 24 scoring queries (term, phrase, boolean should / must / must-not, boost, const-score, dis-max with tie breakers, nestings): every collected score vs an independent BM25 evaluation from the searcher statistics, explain().value(), TopDocs for several K, and (without deletes) bit-identical single-clause scores across all segmentations; field-length family: one document per length at / around every quantisation bucket boundary up to the bound; large-segment family: 9000 (thorough 20000) documents in one segment and in two segments with deletes at the 4096-document window boundaries x 9 union / dis-max / minimum-should-match queries, every document's score, explain and TopDocs; cross-field family: 7 unions / conjunctions / required-optional queries over two text fields with different lengths and a field without frequencies on two 450-document corpora: TopDocs scores for K in {1,3,10,500} equal the exhaustive collector's and explain agrees. Non-trivial: corpus with a non-empty document; distinct by corpus");
+    rep.set("rule", "every multiset of 1..2 (thorough 3) documents over texts of <= 3 tokens over {a,b} x every contiguous segmentation x every delete subset x 24 scoring queries (term, phrase, boolean should / must / must-not, boost, const-score, dis-max with tie breakers, nestings): every collected score vs an independent BM25 evaluation from the searcher statistics, explain().value(), TopDocs for several K, and (without deletes) bit-identical single-clause scores across all segmentations; field-length family: one document per length at / around every quantisation bucket boundary up to the bound; large-segment family: 9000 (thorough 20000) documents in one segment and in two segments with deletes at the 4096-document window boundaries x 15 union / dis-max / minimum-should-match queries (6 of them unions below a conjunction whose other clause is rare or comes in runs, so that the union is seeked over whole buckets inside its window), every document's score, explain and TopDocs; cross-field family: 7 unions / conjunctions / required-optional queries over two text fields with different lengths and a field without frequencies on two 450-document corpora: TopDocs scores for K in {1,3,10,500} equal the exhaustive collector's and explain agrees. Non-trivial: corpus with a non-empty document; distinct by corpus");
     if st.counters.get("large_segment_scores").copied().unwrap_or(0) < 10_000 {
         rep.machinery_errors.push("vacuous: large-segment family scored too few documents".into());
     }
